@@ -393,7 +393,7 @@ def run(ctx: Ctx) -> int:
     worst = 0.0
     nvals = 0
     rep.notes["histories_with_a_point_just_after_a_boundary"] = sum(1 for h in hs if simkit.has_eps(h))
-    rep.notes["histories_also_replayed_at_large_absolute_times"] = sum(1 for _, st in outs if st.get("large"))
+    rep.notes["histories_replayed_at_large_absolute_times"] = sum(1 for _, st in outs if st.get("large"))
     rep.notes["histories_reading_views_before_a_continuation"] = sum(1 for h in hs if read_then_continue(h))
     if min(rep.notes["histories_with_a_point_just_after_a_boundary"],
            rep.notes["histories_reading_views_before_a_continuation"]) == 0:
